@@ -4,7 +4,7 @@
     by the correspondence stream of tools/props/c19.py).  All statements quantify over arbitrary
     template lists (any number of types, keys, levels) with unique names and templates. *)
 From Coq Require Import List String Ascii.
-From Spil Require Import Base.Str Base.Dict Conf.ConfUtil Conf.ConfUtilProofs.
+From Spil Require Import Base.Str Base.Dict Conf.ConfUtil Conf.ConfUtilProofs Conf.ConfBlocksProofs.
 Import ListNotations.
 Local Open Scope string_scope.
 
@@ -48,6 +48,23 @@ Theorem C19_every_level : forall sep orig te t tpl, NoDup (names orig) -> NoDup 
        (names (extrapolate_templates sep orig te)).
 Proof. exact extrapolate_complete. Qed.
 Print Assumptions C19_every_level.
+
+(* placement: the result is the explicit entries in order, each followed directly by its own block of generated types,
+   every one a proper non-empty "/"-prefix of that type's template, from longest to shortest; no block for a type not listed *)
+Theorem C19_blocks : forall sep orig te, NoDup (names orig) -> NoDup (tpls orig) ->
+  exists groups : list templates,
+    List.length groups = List.length orig /\
+    extrapolate_templates sep orig te = List.concat (map (fun kg => fst kg :: snd kg) (combine orig groups)) /\
+    Forall2 (fun kv g => (in_list (fst kv) te = false -> g = []) /\
+                         Forall (generated_from sep (fst kv) (snd kv)) g /\
+                         strictly_shorter (snd kv) g) orig groups.
+Proof. exact extrapolate_blocks. Qed.
+Print Assumptions C19_blocks.
+
+Theorem C19_generated_is_prefix : forall sep t tpl kv, generated_from sep t tpl kv ->
+  exists n, 1 <= n < seglen tpl /\ snd kv = join "/" (firstn n (split_c "/"%char tpl)) /\ seglen (snd kv) = n.
+Proof. exact generated_from_prefix. Qed.
+Print Assumptions C19_generated_is_prefix.
 
 (* pattern replacement keeps names and order, and rewrites only types a selector matches *)
 Theorem C19_replace_names : forall t kp, names (pattern_replacing t kp) = names t.
